@@ -579,6 +579,7 @@ class View:
                 seen.add(ss['ili'])
                 ilis.append(self.ili_of(ss))
         obs['ilis'] = Bag(ilis)
+        obs['byid'] = {}       # look-ups by identifier: the walker files only what is wrong
         if not relations:
             for kind in ('senses', 'synsets'):
                 for d in obs[kind].values():
